@@ -16,7 +16,7 @@ import (
 	"strings"
 )
 
-func (p *pkgInfo) varLit(name string) *ast.CompositeLit {
+func (p *pkgInfo) c06VarLit(name string) *ast.CompositeLit {
 	for _, f := range p.files {
 		for _, d := range f.Decls {
 			gd, ok := d.(*ast.GenDecl)
@@ -98,8 +98,8 @@ func (p *pkgInfo) arrayLen(cl *ast.CompositeLit) int {
 }
 
 // emitIntTable: Definition <prefix>_<name> : list Z.
-func (p *pkgInfo) emitIntTable(w *bytes.Buffer, prefix, name string) {
-	cl := p.varLit(name)
+func (p *pkgInfo) c06EmitIntTable(w *bytes.Buffer, prefix, name string) {
+	cl := p.c06VarLit(name)
 	var parts []string
 	for _, e := range p.litElems(cl, p.arrayLen(cl)) {
 		if e == nil {
@@ -113,7 +113,7 @@ func (p *pkgInfo) emitIntTable(w *bytes.Buffer, prefix, name string) {
 
 // emitStrTable: list of byte strings.
 func (p *pkgInfo) emitStrTable(w *bytes.Buffer, prefix, name string) {
-	cl := p.varLit(name)
+	cl := p.c06VarLit(name)
 	var parts []string
 	for _, e := range p.litElems(cl, p.arrayLen(cl)) {
 		if e == nil {
@@ -126,8 +126,8 @@ func (p *pkgInfo) emitStrTable(w *bytes.Buffer, prefix, name string) {
 }
 
 // emitStructTable: list of tuples of the named integer fields.
-func (p *pkgInfo) emitStructTable(w *bytes.Buffer, prefix, name string, fields []string) {
-	cl := p.varLit(name)
+func (p *pkgInfo) c06EmitStructTable(w *bytes.Buffer, prefix, name string, fields []string) {
+	cl := p.c06VarLit(name)
 	var parts []string
 	for _, e := range p.litElems(cl, p.arrayLen(cl)) {
 		vals := make([]string, len(fields))
@@ -218,12 +218,12 @@ func intsList(v []int) string {
 func init() {
 	emitters["41_samtext"] = func(w *bytes.Buffer) {
 		s := load("sam")
-		s.emitIntTable(w, "sam", "n16TableRev")
-		s.emitIntTable(w, "sam", "n16Table")
+		s.c06EmitIntTable(w, "sam", "n16TableRev")
+		s.c06EmitIntTable(w, "sam", "n16Table")
 		s.emitStrTable(w, "sam", "cigarOps")
-		s.emitStructTable(w, "sam", "consume", []string{"Query", "Reference"})
-		s.emitIntTable(w, "sam", "auxKind")
-		s.emitIntTable(w, "sam", "powers")
+		s.c06EmitStructTable(w, "sam", "consume", []string{"Query", "Reference"})
+		s.c06EmitIntTable(w, "sam", "auxKind")
+		s.c06EmitIntTable(w, "sam", "powers")
 		// init() in cigar.go: the letters whose position is the operation code.
 		var initLetters []int
 		for _, f := range s.files {
